@@ -46,6 +46,9 @@ pub struct Receiver<T> { _p: core::marker::PhantomData<T> }
 pub enum Which { Events, Effects }
 impl<T> Receiver<T> {
     pub uninterp spec fn which(&self) -> Which;
+    // reading the queue's emptiness changes nothing (any answer)
+    #[verifier::external_body]
+    pub fn is_empty(&self) -> (r: bool) { unimplemented!() }
     // ASSUMED (crossbeam try_recv; its FIFO contract is unit Q's subject)
     #[verifier::external_body]
     pub fn try_recv(&self, Tracked(w): Tracked<&mut NW>) -> (r: Result<T, TryRecvError>)
@@ -58,7 +61,17 @@ impl<T> Receiver<T> {
 //@extract id=CommandOutput file=crux_core/src/command/stream.rs item="enum CommandOutput"
 //@end
 
+/// the command's task slab, as far as poll_next may look at it (any answer)
+#[verifier::external_body]
+pub struct TaskSlab { _p: u8 }
+impl TaskSlab {
+    #[verifier::external_body]
+    pub fn is_empty(&self) -> (r: bool) { unimplemented!() }
+    #[verifier::external_body]
+    pub fn len(&self) -> (r: usize) { unimplemented!() }
+}
 pub struct Command<Effect, Event> {
+    pub tasks: TaskSlab,
     pub waker: ArcAtomicWaker,
     pub events: Receiver<Event>,
     pub effects: Receiver<Effect>,
